@@ -178,7 +178,7 @@ func (m *Monitors) onRestart(n *Node) {
 			got := m.Digest(n)
 			m.compared++
 			if got != m.selfDigest[n.Idx] {
-				m.report("C07", map[string]string{"kind": "replay-state-differs", "site": "catchupReplay", "crash": "second"},
+				m.report("C07", m.claimLabel(n, map[string]string{"kind": "replay-state-differs", "site": "catchupReplay", "crash": "second"}),
 					fmt.Sprintf("node %d killed a second time at %q (before the record of a new input was written) and restarted: the round state after WAL replay is not the state it had when its last input had been processed.\n   after replay: %s\n   before crash: %s", n.Idx, n.diedAt, got, m.selfDigest[n.Idx]))
 			}
 		}
@@ -227,7 +227,7 @@ func (m *Monitors) onRestart(n *Node) {
 		}
 	}
 	if got != want {
-		m.report("C07", map[string]string{"kind": "replay-state-differs", "site": "catchupReplay", "died": siteClass(n.diedAt)},
+		m.report("C07", m.claimLabel(n, map[string]string{"kind": "replay-state-differs", "site": "catchupReplay", "died": siteClass(n.diedAt)}),
 			fmt.Sprintf("node %d killed at %q and restarted: round state after WAL replay differs from the state when the last logged input (#%d of height %d) had been processed.\n   after replay: %s\n   expected:     %s", n.Idx, n.diedAt, cnt, stH, got, want))
 	}
 }
@@ -291,4 +291,21 @@ func ownDesc(n *Node) []string {
 	}
 	sort.Strings(out)
 	return out
+}
+
+// claimLabel marks a replay difference of a node that, in the life the crash ended, had been told
+// by a peer that a block has +2/3 (VoteSetMaj23) while a Byzantine validator equivocates in the
+// scenario: such a claim lets the vote set admit the equivocator's second vote, and claims are
+// handled by the reactor outside the WAL, so the replay cannot admit that vote again.
+func (m *Monitors) claimLabel(n *Node, sig map[string]string) map[string]string {
+	if n.claimsPrev == 0 {
+		return sig
+	}
+	for _, r := range m.nt.Sc.Rules {
+		if r.Kind == "byz-split" || r.Kind == "byz-equiv" {
+			sig["after"] = "peer-maj23-claim-with-an-equivocating-validator"
+			return sig
+		}
+	}
+	return sig
 }
